@@ -18,6 +18,7 @@ from pathlib import Path
 from typing import Self
 
 from codebasin import CompilationDatabase, util
+from codebasin._detail import verif
 
 log = logging.getLogger(__name__)
 
@@ -508,6 +509,23 @@ class ArgumentParser:
                 config._update(self.compiler.modes[mode_name])
 
             configurations.append(config)
+
+        if verif.ENABLED:
+            verif.emit(
+                "ParseArgs",
+                name=self.name,
+                argv=list(argv),
+                compiler=verif.describe_compiler(self.compiler),
+                configs=[
+                    {
+                        "pass": c.pass_name,
+                        "defines": list(c.defines),
+                        "include_paths": list(c.include_paths),
+                        "include_files": list(c.include_files),
+                    }
+                    for c in configurations
+                ],
+            )
 
         return configurations
 
